@@ -783,7 +783,7 @@ def locked_census(chk, F, rule, config, allow, floor):
         ok = bool(re.search(r'(Mutex::lock$|Result::unwrap$|DerefMut>?::deref_mut$|Deref>?::deref$|FnOnce::call_once$|RefCell::borrow_mut$)', n))
         chk.ob(rule, 'MutexIsh::locked only locks and runs the closure', ok, config=config, fn=locked, site='call:%s' % n,
                what='unexpected call in lock wrapper', found=n, expected='lock / unwrap / deref_mut / call_once', unrecognised=not ok)
-    sites = F.callers_of(locked.defp)
+    sites = F.callers_of(locked.defp, collapse_helpers=False)      # the census is keyed by the locked field, not by the calling function
     count = 0
     for f, bb, t in sites:
         if f.blocks[bb]['cleanup']:
